@@ -5,7 +5,7 @@
    (forward timer or posted next_packet_sent) is delivered exactly when it is due
    - the guarantee of C03/C02 - with arrivals in any order relative to it. *)
 From Coq Require Import List ZArith Lia Bool.
-From Sim Require Import Queue Net QueueProofs QueueTiming.
+From Sim Require Import Queue Net QueueProofs QueueTiming FpProofs.
 Import ListNotations.
 Local Open Scope Z_scope.
 
@@ -77,3 +77,23 @@ Example C09_example :
   | None => False
   end.
 Proof. vm_compute. reflexivity. Qed.
+
+(* the service time the code computes (two binary64 roundings and a truncation) is
+   the real quotient size * 1e9 / bandwidth to within one nanosecond, for every
+   bandwidth below 2^31 bytes/s and every size a packet can have *)
+Theorem C09_service_time_is_size_over_bandwidth_within_one_tick :
+  forall bw n, 1 <= bw < 2 ^ 31 -> 1 <= n <= 2 ^ 17 ->
+  bw * (ser_double bw n - 1) < n * 1000000000 < bw * (ser_double bw n + 2).
+Proof. exact ser_double_within_one_tick. Qed.
+Print Assumptions C09_service_time_is_size_over_bandwidth_within_one_tick.
+
+Theorem C09_service_time_against_the_integer_quotient :
+  forall bw n, 1 <= bw < 2 ^ 31 -> 1 <= n <= 2 ^ 17 ->
+  n * 1000000000 / bw - 1 <= ser_double bw n <= n * 1000000000 / bw + 1.
+Proof. exact service_time_is_the_real_quotient_within_one_tick. Qed.
+Print Assumptions C09_service_time_against_the_integer_quotient.
+
+Theorem C09_service_time_examples :
+  ser_double 200000 128 = 640000 /\ ser_double 3 100 = 33333333333 /\ ser_double 2147483647 131072 = 61035.
+Proof. exact ser_double_example. Qed.
+Print Assumptions C09_service_time_examples.
